@@ -166,6 +166,58 @@ func consumeStream(st *anyStream, tok string, n int, slow bool, budget time.Dura
 	return consumeStreamSkipping(st, tok, n, slow, budget, -1)
 }
 
+// consumeHead reads the first k values of a stream.
+func consumeHead(st *anyStream, tok string, k int, budget time.Duration) *Violation {
+	deadline := time.Now().Add(budget)
+	for next := 0; next < k; next++ {
+		seq, good, closed, timedOut, raw := st.recv(time.Until(deadline))
+		if timedOut || closed {
+			return violf("stream-stalled", "stream %s delivered %d values, then closed=%v timedOut=%v", tok, next, closed, timedOut)
+		}
+		if !good || seq != next {
+			return violf("stream-reordered", "stream %s: received %s (seq %d), expected seq %d", tok, raw, seq, next)
+		}
+	}
+	return nil
+}
+
+// consumeStreamFrom continues a stream at element `from` and reads it to its close.
+func consumeStreamFrom(st *anyStream, tok string, n, from int, budget time.Duration, skip int) *Violation {
+	deadline := time.Now().Add(budget)
+	next := from
+	for {
+		seq, good, closed, timedOut, raw := st.recv(time.Until(deadline))
+		if timedOut {
+			return violf("stream-stalled", "stream %s delivered %d of %d values and then nothing for the rest of %v", tok, next, n, budget)
+		}
+		if next == skip && !closed && seq == skip+1 {
+			next++ // the unencodable element was dropped, the stream goes on
+		}
+		if closed && next == skip && skip == n-1 {
+			next++
+		}
+		if closed {
+			if next != n {
+				return violf("stream-closed-early", "stream %s closed after %d of %d values", tok, next, n)
+			}
+			return nil
+		}
+		if !good {
+			return violf("stream-foreign-value", "stream %s received a value that is not its own: %s (expected seq %d)", tok, raw, next)
+		}
+		if seq != next {
+			key := "stream-reordered"
+			if seq == next-1 {
+				key = "stream-duplicate"
+			} else if seq > next {
+				key = "stream-lost-value"
+			}
+			return violf(key, "stream %s: a consumer that had fallen %d values behind received seq %d where %d was due (of %d)", tok, n-from, seq, next, n)
+		}
+		next++
+	}
+}
+
 // consumeStreamSkipping tolerates the absence of element `skip` (a value that cannot be encoded cannot travel).
 func consumeStreamSkipping(st *anyStream, tok string, n int, slow bool, budget time.Duration, skip int) *Violation {
 	deadline := time.Now().Add(budget)
@@ -290,6 +342,25 @@ func runC07(c c07Case) (*Violation, string) {
 			defer cw.Done()
 			if s.Consumer == "resume" {
 				time.Sleep(30 * time.Millisecond)
+			}
+			if s.Consumer == "lagging" && s.N > 3 && s.Type != "nan" {
+				// takes a few values, then falls behind by the rest of the stream before it continues
+				if v := consumeHead(s.st, s.tok, 3, 5*time.Second); v != nil {
+					s.v = v
+					return
+				}
+				for deadline := time.Now().Add(4 * time.Second); time.Now().Before(deadline); time.Sleep(time.Millisecond) {
+					if sent, _ := rig.W.Sent(s.tok); sent >= s.N {
+						break
+					}
+				}
+				time.Sleep(20 * time.Millisecond)
+				skip := -1
+				if s.Type == "nan" {
+					skip = s.N / 2
+				}
+				s.v = consumeStreamFrom(s.st, s.tok, s.N, 3, 8*time.Second, skip)
+				return
 			}
 			skip := -1
 			if s.Type == "nan" {
@@ -497,13 +568,13 @@ func c07NT(c c07Case) (bool, []string) {
 	return nt, cl
 }
 
-const c07Rule = "1-5 concurrent subscriptions, lengths from {0,1,2,31..34,100,255..257,1000}, element types {struct with (token,seq), int64, string, struct with optional pointer/map/slice fields, float64 with one NaN}, subscribing methods returning (channel, error) or only a channel, handler channels with 0-300 spare slots, optionally one extra subscription whose producer never pauses on a buffered channel (capacity 1-1024) for the whole case, optionally a reverse-direction stream (served by the client, consumed by a server-side handler) of 1-300 elements padded up to 70 kB with the server's HTTP request size limit set as low as 1 KiB, 0..N values pre-loaded in the handler's channel buffer before it returns, consumers {eager, slow, stalled then resumed, stalled for the whole case}, 0-6 interleaved unary calls, 0-3 delays at chan.register / chan.forward / chan.sink / write.locked / resp.found. Non-trivial = >=2 subscriptions, or a length > 32, or early sends, or a stalled consumer; distinct by descriptor hash"
+const c07Rule = "1-5 concurrent subscriptions, lengths from {0,1,2,31..34,100,255..257,1000}, element types {struct with (token,seq), int64, string, struct with optional pointer/map/slice fields, float64 with one NaN}, subscribing methods returning (channel, error) or only a channel, handler channels with 0-300 spare slots, optionally one extra subscription whose producer never pauses on a buffered channel (capacity 1-1024) for the whole case, optionally a reverse-direction stream (served by the client, consumed by a server-side handler) of 1-300 elements padded up to 70 kB with the server's HTTP request size limit set as low as 1 KiB, 0..N values pre-loaded in the handler's channel buffer before it returns, consumers {eager, slow, stalled then resumed, taking three values and then falling behind by the rest of the stream, stalled for the whole case}, 0-6 interleaved unary calls, 0-3 delays at chan.register / chan.forward / chan.sink / write.locked / resp.found. Non-trivial = >=2 subscriptions, or a length > 32, or early sends, or a stalled consumer; distinct by descriptor hash"
 
 func TestC07(t *testing.T) {
 	rec := NewRec("C07", c07Rule)
 	defer rec.Finish(t)
 	rec.EnableJournal()
-	rec.RequireClass("reverse_direction_stream", "reverse_element_above_request_limit", "bare_channel_result", "buffered_handler_channel", "never_pausing_producer", "type_rich", "type_nan", "len_gt_8k", "len_gt_32", "len_0", "early_send", "consumer_stalled", "consumer_resume", "consumer_slow", "type_int", "type_str", "with_delays", "with_unary", "nsubs_3")
+	rec.RequireClass("consumer_lagging", "reverse_direction_stream", "reverse_element_above_request_limit", "bare_channel_result", "buffered_handler_channel", "never_pausing_producer", "type_rich", "type_nan", "len_gt_8k", "len_gt_32", "len_0", "early_send", "consumer_stalled", "consumer_resume", "consumer_slow", "type_int", "type_str", "with_delays", "with_unary", "nsubs_3")
 	run := func(ft failer, c c07Case) {
 		nt, cl := c07NT(c)
 		rec.Run(ft, c, nt, cl, func() *Violation {
@@ -531,6 +602,10 @@ func TestC07(t *testing.T) {
 		}
 		// a backlog far beyond any internal buffer: 12000 unread values, then other traffic on the same connection
 		run(t, c07Case{Subs: []c07Sub{{Type: "int", N: 12000, Consumer: "stalled"}, {Type: "item", N: 20, Consumer: "eager"}}, Unary: 3, Late: 3})
+		run(t, c07Case{Subs: []c07Sub{{Type: "int", N: 40000, Consumer: "stalled"}, {Type: "str", N: 10, Consumer: "eager"}}, Unary: 1, Late: 4})
+		// a consumer that takes a few values and then falls thousands of values behind before it continues
+		run(t, c07Case{Subs: []c07Sub{{Type: "int", N: 6000, Consumer: "lagging"}, {Type: "item", N: 30, Consumer: "eager"}}, Unary: 2})
+		run(t, c07Case{Subs: []c07Sub{{Type: "item", N: 9000, Consumer: "lagging"}, {Type: "str", N: 2500, Consumer: "lagging"}}, Unary: 1})
 		for _, cons := range []string{"eager", "resume", "stalled"} {
 			run(t, c07Case{Subs: []c07Sub{{Type: "rich", N: 40, Early: 3, Consumer: cons}, {Type: "nan", N: 9, Consumer: "eager"}, {Type: "item", N: 50, Consumer: "eager"}, {Type: "rich", N: 13, Consumer: "slow"}}, Unary: 2, Late: 1})
 		}
@@ -552,7 +627,7 @@ func TestC07(t *testing.T) {
 		ns := rapid.IntRange(1, 5).Draw(rt, "nsubs")
 		for i := 0; i < ns; i++ {
 			l := fmt.Sprintf("s%d_", i)
-			s := c07Sub{Type: rapid.SampledFrom([]string{"item", "item", "int", "str", "rich", "rich", "nan"}).Draw(rt, l+"type"), Consumer: rapid.SampledFrom([]string{"eager", "eager", "slow", "resume", "stalled"}).Draw(rt, l+"consumer")}
+			s := c07Sub{Type: rapid.SampledFrom([]string{"item", "item", "int", "str", "rich", "rich", "nan"}).Draw(rt, l+"type"), Consumer: rapid.SampledFrom([]string{"eager", "eager", "slow", "resume", "stalled", "lagging"}).Draw(rt, l+"consumer")}
 			if rapid.IntRange(0, 3).Draw(rt, l+"lenkind") == 0 {
 				s.N = rapid.IntRange(0, 400).Draw(rt, l+"lenr")
 			} else {
@@ -560,6 +635,9 @@ func TestC07(t *testing.T) {
 			}
 			if s.N > 300 && ns > 3 {
 				s.N = 300
+			}
+			if s.Consumer == "lagging" && ns <= 2 && rapid.Bool().Draw(rt, l+"laglong") {
+				s.N = rapid.SampledFrom([]int{2047, 2048, 2049, 2100, 4200, 7000}).Draw(rt, l+"laglen")
 			}
 			switch rapid.IntRange(0, 3).Draw(rt, l+"earlykind") {
 			case 1:
